@@ -61,11 +61,44 @@ Theorem C21_parallel_iff : forall s th, wf_status s -> min64 < th <= max64 ->
   (detect_parallel s th = true <-> parallel s th).
 Proof. exact parallel_iff. Qed.
 
-(* the executable verdict the correspondence driver applies to the implementation's answers accepts
-   the model's answer on every input of the domain *)
-Theorem C21_answer_ok_model : forall s th, wf_status s -> min64 < th <= max64 ->
+(* The whole answer is the specified one on the whole domain where the code can know the distances:
+   any threshold (negative ones and MinInt64 included) when no stamp is more than 2^63 ns ahead of now,
+   and any stamps when the threshold is >= 0.  [answer_ok] is the STRICT verdict (= [expected], the
+   literal property) that the correspondence driver applies to every answer of the implementation. *)
+Theorem C21_answer_exact_domain : forall s th, wf_status s -> is_dur th ->
+  0 <= th \/ saturated_b s = false ->
+  synced_to_emit s th = expected s th.
+Proof. exact synced_exact_domain. Qed.
+Theorem C21_answer_ok_model : forall s th, wf_status s -> is_dur th ->
+  0 <= th \/ saturated_b s = false ->
   answer_ok s th (synced_to_emit s th) = true.
 Proof. exact answer_ok_model. Qed.
+Theorem C21_parallel_iff_domain : forall s th, wf_status s -> is_dur th ->
+  min64 < th \/ min64 <= elapsed s (created s) ->
+  (detect_parallel s th = true <-> parallel s th).
+Proof. exact parallel_iff_domain. Qed.
+
+(* ---- outside that domain the REPAIRED code still violates the literal property (unrepaired, known
+   findings C21-min-threshold-emit / -parallel and C21-neg-threshold-wait; design-notes/C21.md).
+   What the code does at threshold = MinInt64, exactly: *)
+Theorem C21_min_threshold_emits : forall s, wf_status s -> peers s <> 0 -> ns (synced s) <> 0 ->
+  synced_to_emit s min64 = (0, NoErr).
+Proof. exact min_threshold_emits. Qed.
+Theorem C21_min_threshold_no_parallel : forall s, wf_status s -> detect_parallel s min64 = false.
+Proof. exact min_threshold_no_parallel. Qed.
+(* ... which contradicts the property when a stamp is more than 2^63 ns ahead of now: *)
+Theorem C21_min_threshold_refuted :
+  exists s, wf_status s /\ ~ may_emit s min64 /\ snd (synced_to_emit s min64) = NoErr.
+Proof. exact min_threshold_refuted. Qed.
+Theorem C21_min_threshold_parallel_refuted :
+  exists s, wf_status s /\ parallel s min64 /\ detect_parallel s min64 = false.
+Proof. exact min_threshold_parallel_refuted. Qed.
+(* MinInt64 < threshold < 0 and such a stamp: the decision is right (C21_emit_iff) but the wait is below
+   the capped longest remaining time (C21_wait_bounds gives the bound) *)
+Theorem C21_negative_threshold_wait_refuted :
+  exists s th, wf_status s /\ min64 < th < 0 /\ peers s <> 0 /\ ns (synced s) <> 0 /\
+               ~ may_emit s th /\ fst (synced_to_emit s th) <> capped (longest s th).
+Proof. exact negative_threshold_wait_refuted. Qed.
 
 (* ---- non-vacuity: a status where emission is refused for 3 s more; one where it is permitted *)
 Definition ex_t (sec_ : Z) : gtime := {| sec := 63900000000 + sec_; nsec := 500 |}.
@@ -96,4 +129,11 @@ Print Assumptions C21_wait_bounds.
 Print Assumptions C21_no_peers.
 Print Assumptions C21_not_synced.
 Print Assumptions C21_parallel_iff.
+Print Assumptions C21_answer_exact_domain.
 Print Assumptions C21_answer_ok_model.
+Print Assumptions C21_parallel_iff_domain.
+Print Assumptions C21_min_threshold_emits.
+Print Assumptions C21_min_threshold_no_parallel.
+Print Assumptions C21_min_threshold_refuted.
+Print Assumptions C21_min_threshold_parallel_refuted.
+Print Assumptions C21_negative_threshold_wait_refuted.
